@@ -1,13 +1,12 @@
 (* C13/Properties.v — the property theorems only.  Each is closed by [exact]/[apply] of a lemma from
    Proofs.v (or by computation for witnesses) and followed by Print Assumptions.
 
-   /repo HEAD is the variant [Head]: the four findings recorded earlier are fixed (1761ed1 x2, 61c97e1,
-   e792c74); two are open and have fix patches: a failing RESTORING reload is only logged
-   (fixes/C13_report_restore), and ApplyLoadedConfig publishes running before anything is validated and does
-   not put it back when the start-up fails (fixes/C13_boot_atomic).  [Repaired] has both repaired.
-   [fixed var] = persist-before-swap and atomic Set are repaired; the theorems are stated for every such
-   variant (hence for HEAD and for Repaired); clauses that an open finding breaks carry the flag as a hypothesis
-   and have a [_refuted] witness for [Head].
+   /repo HEAD is the variant [Repaired]: every recorded finding is fixed (1761ed1 x2, 61c97e1, e792c74,
+   4214320 report a failed daemon restore, ce2c6ad a failed start-up must not leave its configuration running).
+   The model keeps one [variant] flag per former defect only for the historical [_refuted] witnesses at the end
+   of this file ([PreAudit2] = the tree before 4214320 and ce2c6ad); the correspondence compares /repo with
+   [Repaired] alone.  [fixed var] = persist-before-swap and atomic Set are repaired; theorems are stated for
+   every such variant, clauses that depend on a later fix carry its flag as a hypothesis (true of [Repaired]).
    "Reachable" means: reachable from an initial state by a history of northbound operations
    ([forallb plain ops]: Create, Close, Delete, Set, Commit, Rollback-to-version, time).  LoadConfig and the
    start-up path (ApplyLoadedConfig) replace the whole candidate / alias it with running by design; they
@@ -15,8 +14,9 @@
    (C13_atomic, C13_commit_validates, C13_create_granted, the call-stream theorems) cover them. *)
 From OV Require Import Common.Base C13.Model C13.Proofs.
 
-Theorem C13_head_is_fixed : fixed Head /\ v_frr_restore Head = true /\ fixed Repaired.
-Proof. split; [apply fixed_head | split; [reflexivity | apply fixed_repaired]]. Qed.
+Theorem C13_head_is_fixed :
+  fixed Repaired /\ v_frr_restore Repaired = true /\ v_report_restore Repaired = true /\ v_boot_atomic Repaired = true.
+Proof. split; [apply fixed_repaired | repeat split]. Qed.
 Print Assumptions C13_head_is_fixed.
 
 (* reachable states, from any initial running configuration (running and startup one object or two), under
@@ -38,8 +38,8 @@ Print Assumptions C13_reachable_invariant.
    Apply calls in reverse order; and the routing daemon is either untouched or, when a reload had been
    attempted, back on the running configuration, OR the restoring reload failed as well ([f_restore]: the
    daemon is down) — then the daemon may still run the candidate, and in the variants with
-   [v_report_restore] the returned error says so ([RFrrReloadU]/[RStartupSaveU]); on HEAD it is only logged
-   (open finding, [C13_restore_unreported_refuted]). *)
+   [v_report_restore] (HEAD) the returned error says so ([RFrrReloadU]/[RStartupSaveU]); before 4214320 it was
+   only logged ([C13_restore_unreported_refuted]). *)
 Theorem C13_atomic :
   forall var reg g st id f st' r evs, fixed var ->
   do_commit var reg g st id f = (st', r, evs) -> r <> ROk ->
@@ -173,10 +173,10 @@ Theorem C13_commit_validates :
 Proof. exact commit_validates. Qed.
 Print Assumptions C13_commit_validates.
 
-(* START-UP.  In the variants with [v_boot_atomic] (fixes/C13_boot_atomic), from ANY state: a start-up
+(* START-UP.  In the variants with [v_boot_atomic] (HEAD since ce2c6ad), from ANY state: a start-up
    (LoadStartupConfig + ApplyLoadedConfig) that does not succeed leaves running — contents and object — what it
    was, and a loaded configuration that fails the pre-commit validation is refused before it is published.
-   On HEAD both are false ([C13_boot_refuted]). *)
+   Before ce2c6ad both were false ([C13_boot_refuted]). *)
 Theorem C13_boot_atomic :
   forall var reg g st cfg steps em f st' r evs,
   v_boot_atomic var = true -> do_boot var reg g st cfg steps em f = (st', r, evs) -> is_boot_ok r = false ->
@@ -277,13 +277,14 @@ Example C13_idle_expiry_nonvacuous :
 Proof. vm_compute. repeat split. Qed.
 Print Assumptions C13_idle_expiry_nonvacuous.
 
-(* ---------------------------------------------------------------- what /repo HEAD violates (open findings) *)
-(* the reload fails after the daemon took the candidate and the restoring reload fails too: HEAD returns the
+(* ---------------------------------------------------------------- historical witnesses (all fixed in /repo) *)
+(* before 4214320 *)
+(* the reload fails after the daemon took the candidate and the restoring reload fails too: the tree before 4214320 returned the
    plain reload error although the daemon still runs the candidate; [Repaired] returns the distinguished error *)
 Theorem C13_restore_unreported_refuted :
   exists reg g ops id f,
-  let st := run Head reg g (init_state empty_store) ops in
-  let '(st', r, evs) := do_commit Head reg g st id f in
+  let st := run PreAudit2 reg g (init_state empty_store) ops in
+  let '(st', r, evs) := do_commit PreAudit2 reg g st id f in
   let '(st2, r2, _) := do_commit Repaired reg g (run Repaired reg g (init_state empty_store) ops) id f in
   r = RFrrReload /\ persisted st' = persisted st /\ frr st' <> frr st /\ frr st' <> Some (running st) /\
   r2 = RFrrReloadU /\ frr st2 = frr st'.
@@ -293,24 +294,23 @@ Proof.
 Qed.
 Print Assumptions C13_restore_unreported_refuted.
 
-(* a start-up whose commit fails (here: the second Apply): HEAD leaves the loaded configuration published as
+(* before ce2c6ad — a start-up whose commit fails (here: the second Apply) left the loaded configuration published as
    running; with colliding subscriber groups it is published although the validation rejects it *)
 Definition ex_cfg : store := {| leaves := [(ex_p, SInt 1500); (ex_b, SBool true)]; conts := [[1]; [1; 3]; [5]]%N |}.
 Definition ex_col : store :=
   {| leaves := [([10; 11; 7], SStr [49]); ([10; 12; 7], SStr [49])]; conts := [[10]; [10; 11]; [10; 12]] |}%N.
 Definition ex_colg : guard := {| g_mss := None; g_sv := 7%N; g_cv := 8%N; g_hidden := []; g_sa := 9%N |}.
 Theorem C13_boot_refuted :
-  (let '(st', r, _) := do_boot Head ex_reg no_guard (init_state empty_store) ex_cfg []
+  (let '(st', r, _) := do_boot PreAudit2 ex_reg no_guard (init_state empty_store) ex_cfg []
                          [(ex_p, VInt 1500); (ex_b, VBool true)] (f_with 2 0 false 0 false false) in
    r = RApplyFail /\ get_leaf (running st') ex_p = Some (SInt 1500)) /\
-  (let '(st', r, _) := do_boot Head ex_reg ex_colg (init_state empty_store) ex_col [] [] no_faults in
+  (let '(st', r, _) := do_boot PreAudit2 ex_reg ex_colg (init_state empty_store) ex_col [] [] no_faults in
    precommit_ok ex_colg ex_col = false /\ r <> ROk /\ running st' = ex_col) /\
   (let '(st', r, _) := do_boot Repaired ex_reg ex_colg (init_state empty_store) ex_col [] [] no_faults in
    r = RPrecommit /\ running st' = empty_store).
 Proof. vm_compute. repeat split; discriminate. Qed.
 Print Assumptions C13_boot_refuted.
 
-(* ---------------------------------------------------------------- historical witnesses (all fixed in /repo) *)
 (* before e792c74 *)
 (* the reload fails after the daemon has taken the candidate (f_reload = 2): the tree before e792c74 rolled the handlers back and
    leaves the datastores alone, but the daemon stays on a configuration that is neither what it had nor the
